@@ -10,6 +10,92 @@ NOTES = ("All checks: `harness/check.py Cxx`. Each run re-extracts Generated/*.l
 NOT_APPLICABLE = {}
 
 CHECKS = {
+    "C01": {
+        "text": ("Lexer part: Lean model of Lexer.__next__/_read_* and index_to_loc/highlight_location with theorems error_in_range_partial "
+                 "(+ machine-checked refutation of the full statement: position len+1 pinned by the suite, finding L6), render_total, "
+                 "index_to_loc_total_iff and table-to-spec theorems over IGNORED_CHARS/SYMBOLS/QUOTED_CHARS/digit/name classes RE-EXTRACTED from lexer.py "
+                 "each run. Parser part: Lean model of every parse_* with parseValue/parseType sound+complete+accepts_iff for all 8 flag combinations "
+                 "(document grammar: parse_sound_partial/parse_complete_partial, full statements kept visible) and theorems over the keyword/location tables "
+                 "re-extracted from parser.py. Tied by token/AST correspondence on grammar-directed documents, mutants, every prefix, fixtures and "
+                 "bounded-exhaustive token strings, plus direct oracles (spec recognisers, error contract, ignored-run invariance)."),
+        "note": ("Trusted: Lean kernel; table extraction; generators. lex_sound/lex_render and document-level parse soundness are NOT proved: they rest on the "
+                 "correspondence and on the compiled grammar matcher run on every accepted document. RecursionError on deep nesting is the named probe (finding P1)."),
+        "technique": "Lean 4 proof (value/type grammar, tables, error rendering) + extracted tables + token/AST correspondence",
+    },
+    "C02": {
+        "text": ("block_string_spec (parse_block_string model = BlockStringValue transcribed from the spec, all inputs), escape_spec (iff with StringCharacter*), "
+                 "number_verbatim; span_spec_type/span_spec_value and matches_spans (matcher => declarative derivation with spans), noloc theorems; document spans "
+                 "are span_spec_partial. Tied by correspondence of decoded values and of every node's loc, and the direct oracle 'source[loc] re-parses to an equal node'."),
+        "note": "Trusted: Lean kernel; generators. Document-level span_spec is partial (values and types proved); the rest rests on the correspondence and re-parse oracle.",
+        "technique": "Lean 4 proof (block strings, escapes, value/type spans) + decode/span correspondence + re-parse oracle",
+    },
+    "C03": {
+        "text": ("quoted_roundtrip (lexAll (jsonDumps v) is exactly the String token v, all code-point lists), block_roundtrip_partial (escaping half; full statement visible "
+                 "with decide-checked instances); printer string encoders modelled and compared as exact text; direct oracle decode(print(s)) == s and "
+                 "print_ast round trip with strings nested 0-3 deep and as descriptions."),
+        "note": ("Trusted: Lean kernel; generators. The DOCUMENT printer (print_ast over all node kinds) is not yet modelled: its round trip is covered by the direct oracle on "
+                 "generated documents only; layout half of block_roundtrip unproved."),
+        "technique": "Lean 4 proof (string encoders) + exact-text correspondence + print/parse round-trip oracle",
+    },
+    "C11": {
+        "text": ("Lean model of the SDL builder (collect definitions/extensions, build_*/extend_*, roots, defaults, deprecation, ignore_extensions, additional_types) with "
+                 "collect_exact, collect_rejects_*, appendNew_* (extension members appended in document order, failure only with ExtensionError); build_exact is refuted by a "
+                 "decide witness (finding S8: defaults coerced before extensions are merged), full statements kept visible. Tied by correspondence of canonical schema dumps on "
+                 "generated SDL (all six kinds, extensions split over blocks, permuted orders, 38 labelled defects) and the direct oracle Declared(doc) / exception class."),
+        "note": "Trusted: Lean kernel; generators; Schema.validate() not modelled (documents rejected only by validation are compared with validation disabled).",
+        "technique": "Lean 4 proof over builder model + schema-dump correspondence + labelled-defect oracle",
+    },
+    "C12": {
+        "text": ("Lean model of ASTSchemaPrinter as schema -> text with the module-level directive-name state threaded explicitly: print_pure_partial, printDirectives_state_fixed, "
+                 "generator_consumed / print_pure_refuted_today (the 2-call witness of H1 on a generator state) and print_pure_witness_fixed; model text == real text on every call of "
+                 "random to_string histories; direct oracles dump(build(to_string(s))) == dump(s), fixpoint, purity across histories, parser accepts."),
+        "note": "Trusted: Lean kernel; generators. to_doc_build / print_fixpoint / default_roundtrip are not proved (oracle only); include_introspection not modelled.",
+        "technique": "Lean 4 proof (printer state) + exact-text correspondence over call histories + round-trip oracle",
+    },
+    "C14": {
+        "text": ("Object-heap model (identities, shallow copy, heal visitor, clone, transforms, extend) whose code variant flags are RE-EXTRACTED from schema.py / ast_type_builder.py / "
+                 "schema_from_ast.py each run: extend_frames_source and extend_sequence_frames_source (all inputs), healed_registered, busted_accumulates, frame algebra; "
+                 "clone/transform closedness and frame are _partial with decide witnesses for the fixed variant and machine-checked refutations for the legacy variant (T1,T2,T3,S2). "
+                 "Tied by correspondence of the live object graph (identities canonicalised) over random clone/transform/extend sequences and direct closedness / frame / preservation oracles."),
+        "note": "Trusted: Lean kernel; flag extraction; generators. General clone_closed / transform_closed / untouched_preserved are not proved (correspondence + oracle only).",
+        "technique": "Lean 4 proof over heap model (frame for extend; witnesses) + live object-graph correspondence",
+    },
+    "C15": {
+        "text": ("introspect_lossless proved in full (decoder(introspect s) = norm s for every schema with <= 7 wrappers; bound shown tight), deprecated_hidden, disabled_hides_all, "
+                 "disabled_keeps_ordinary, meta-field chain and _format_default_value TRANSLATED from source each run; default_parses refuted with four witnesses (finding I1, repair pinned "
+                 "by test_introspection_on_input_object) + default_parses_partial. Tied by correspondence of the full introspection JSON and the direct decode-and-compare / re-parse-default oracle."),
+        "note": "Trusted: Lean kernel; translator; generators. asyncio/thread-pool runs only exercised by the Python oracle.",
+        "technique": "Lean 4 proof (lossless decoder) + source-translated formatter + introspection JSON correspondence",
+    },
+    "C16": {
+        "text": ("Trace model of process_graphql_query / execute / both executors' resolve_field / apply_middlewares / MultiInstrumentation: stages_nested (every outcome, executor, schedule), "
+                 "field_hooks_once (every schedule: permutation of per-field chunks), middleware_once_in_order, multi_order, multi_member_sees_all; order under deferred schedules is "
+                 "field_hooks_ordered_partial. Tied by event-trace correspondence on all request outcomes x four configurations x all 36 schedules and the direct bracket/once oracle."),
+        "note": "Trusted: Lean kernel; generators. Known finding N2 (on_field_end fires twice when completion raises ResolverError under Executor). Thread-pool runs use atomic completions only.",
+        "technique": "Lean 4 proof over hook-trace model + controlled-schedule trace correspondence",
+    },
+    "C17": {
+        "text": ("Model of subscribe / create_source_event_stream / execute_subscription_event with the shared executor's error list and clear_errors, AsyncMap: one_result_per_event, "
+                 "kth_result_is_exec_of_kth_event, errors_isolated (+ decide refutation without clear_errors), refusals, accepted_stream, all full. Tied by correspondence and a direct "
+                 "oracle on the real subscribe() on a private asyncio loop (event lists, delays, errors on arbitrary events, every refusal with source-consumption detection)."),
+        "note": "Trusted: Lean kernel; generators. Overlapping __anext__ calls on one executor are outside the sequential protocol modelled.",
+        "technique": "Lean 4 proof over subscription stream model + real asyncio stream oracle",
+    },
+    "C18": {
+        "text": ("Generic table-driven visitor model over rose trees; the traversal table (children, order, assignment) and dispatch registries are RE-EXTRACTED from visitor.py / ast.py each run: "
+                 "identity_noop, balanced, once, delete_local, replace_local, skip_local, chained_order (all tables/visitors), table facts by decide +kernel; coverage is coverage_partial "
+                 "with machine-checked gap witnesses (findings W1-W6, pinned by test_visitor.py). Tied by trace/tree correspondence with scripted real visitors at every node position and "
+                 "the direct exactly-once / nesting / locality oracle."),
+        "note": "Trusted: Lean kernel; table extractor; generators. No tree-level editAt theorem for all positions (frame rules + bounded instances).",
+        "technique": "Lean 4 proof over source-extracted traversal table + visitor trace correspondence",
+    },
+    "C19": {
+        "text": ("Model of collect_fields_untyped / selected_fields / MaxDepthValidationRule and an independent depth specification: flags_iff, no_raise, name_filter, wrap_inline_ge, "
+                 "wrap_spread_ge (acyclicity of the wrapped document as hypothesis), depth_fuel_irrelevant, measured_eq_depth, all full for the fixed rule; decide refutations for the "
+                 "original rule. Tied by correspondence (error set, raises) and the direct oracle flagged <=> spec depth > limit on exhaustive small distributions over fragments."),
+        "note": "Trusted: Lean kernel; generators. Known finding Q1-vars (raw request variables: omitted directive variable with default raises CoercionError).",
+        "technique": "Lean 4 proof (rule = spec depth) + exhaustive small-scope correspondence",
+    },
     "C10": {
         "text": ("Lean theorems about the hand model of index_to_loc / to_dict of every error class / GraphQLResult.response / the staged "
                  "process_graphql_query / the executors' error capture: loc_bounds (all texts, all positions), index_to_loc_total_iff, "
